@@ -336,6 +336,15 @@ func structBodies(L int64) [][2]interface{} {
 	for _, kv := range [][2]wm.Kind{{wm.KI32, wm.KI32}, {wm.KI64, wm.KDouble}, {wm.KBinary, wm.KI32}, {wm.KI32, wm.KStruct}, {wm.KI64, wm.KList}, {wm.KBool, wm.KBool}, {wm.KBinary, wm.KBinary}, {wm.KStruct, wm.KMap}} {
 		add("map-count/"+kv[0].String()+","+kv[1].String(), cat(fieldHdr(13, 1), []byte{byte(kv[0]), byte(kv[1])}, be32(L), few))
 	}
+	// type bytes that are not wire types at all: the count must not be believed for them either
+	for _, bad := range []byte{0, 1, 5, 7, 9, 16, 0x7f, 0xff} {
+		add(fmt.Sprintf("list-count/invalid-type-%d", bad), cat(fieldHdr(15, 1), []byte{bad}, be32(L), few))
+		add(fmt.Sprintf("set-count/invalid-type-%d", bad), cat(fieldHdr(14, 1), []byte{bad}, be32(L), few))
+		add(fmt.Sprintf("map-count/invalid-type-%d,i32", bad), cat(fieldHdr(13, 1), []byte{bad, 8}, be32(L), few))
+		add(fmt.Sprintf("map-count/i32,invalid-type-%d", bad), cat(fieldHdr(13, 1), []byte{8, bad}, be32(L), few))
+		add(fmt.Sprintf("map-count/invalid-type-%d,invalid-type-%d", bad, bad), cat(fieldHdr(13, 1), []byte{bad, bad}, be32(L), few))
+	}
+	add("nested/list<invalid-type-0>-inner-count", cat(fieldHdr(15, 1), []byte{15}, be32(1), []byte{0}, be32(L), few))
 	// nested one level down
 	add("nested/list<list<i64>>-inner-count", cat(fieldHdr(15, 1), []byte{15}, be32(1), []byte{10}, be32(L), few))
 	add("nested/list<binary>-inner-length", cat(fieldHdr(15, 1), []byte{11}, be32(1), be32(L), []byte("ab")))
